@@ -781,3 +781,48 @@ def atomic_op(t):
     """Name of the std atomic operation called (load, store, fetch_add, ...) or None."""
     m = _ATOMIC_RE.search(callee_def(t))
     return m.group(1) if m else None
+
+
+def source_attrs(repo, file, line):
+    """Attributes written directly above the item that starts at file:line (derive helper attributes such as #[serde(..)] do not
+    survive into HIR, so they are read from the source text the compiler was given).  Returns a list of attribute strings."""
+    path = file if os.path.isabs(file) else os.path.join(repo, file)
+    try:
+        lines = open(path, encoding="utf-8", errors="replace").read().split("\n")
+    except OSError:
+        return []
+    i = line - 2
+    depth = 0
+    chunk = []
+    while i >= 0:
+        raw = lines[i]
+        st = raw.strip()
+        code = re.sub(r'"(?:[^"\\]|\\.)*"', '""', st.split("//")[0] if not st.startswith("//") else "")
+        closes = code.count("]") + code.count(")")
+        opens = code.count("[") + code.count("(")
+        if depth > 0 or st.startswith("#[") or st.startswith("//") or (closes > opens and (st.endswith(")]") or st.endswith(")"))):
+            depth += closes - opens
+            chunk.append(raw)
+            i -= 1
+            continue
+        break
+    text = "\n".join(reversed(chunk))
+    out = []
+    j = 0
+    while True:
+        k = text.find("#[", j)
+        if k < 0:
+            break
+        d = 0
+        m = k + 1
+        while m < len(text):
+            if text[m] == "[":
+                d += 1
+            elif text[m] == "]":
+                d -= 1
+                if d == 0:
+                    break
+            m += 1
+        out.append(re.sub(r"\s+", " ", text[k:m + 1]))
+        j = m + 1
+    return out
